@@ -237,7 +237,8 @@ Lemma accept_block cid n mx es p' :
   forall e, In e es ->
     validate_basic e = true /\ is_committed (n_pool n) e = false /\
     ((sound cid (n_chain n) e /\ ~ expired (p_state (n_pool n)) (e_height e) (e_time e)) \/
-     (exists x, In x (p_pending (n_pool n)) /\ ekey x = ekey e /\ sound cid (n_chain n) x)).
+     (exists x, In x (p_pending (n_pool n)) /\ ekey x = ekey e /\ sound cid (n_chain n) x /\
+                is_expired (p_state (n_pool n)) (e_height e) (e_time e) = false)).
 Proof.
   intros [Hc [Hs Hd]] H. apply block_evidence_spec in H. destruct H as [_ [_ [_ [_ Hok]]]].
   destruct (Hok eq_refl) as [Hb [Hnd [Hall _]]]. split.
@@ -246,10 +247,10 @@ Proof.
     intros Hi. apply H1. apply in_map_iff in Hi. destruct Hi as [x [Hx Hi]].
     apply in_map_iff. exists x. split; auto. unfold ekey in Hx. inversion Hx; auto.
   - intros e He. rewrite forallb_forall in Hb. split; [apply Hb; auto|].
-    destruct (Hall e He) as [Hp|[Hn Hv]].
+    destruct (Hall e He) as [[Hp Hne]|[Hn Hv]].
     + unfold is_pending in Hp. apply existsb_exists in Hp. destruct Hp as [x [Hx Hk]].
       apply key2_eqb_eq in Hk. split.
       * pose proof (Hd x Hx) as Hdx. unfold is_committed in *. rewrite <- Hk. exact Hdx.
-      * right. exists x. auto.
+      * right. exists x. auto 6.
     + apply verify_ok in Hv. rewrite Hc in Hv. destruct Hv as [Hso Hex]. auto.
 Qed.
